@@ -306,14 +306,63 @@ def gen_c13(g):
             g.add(mn, ops, device="", addr=addr)
 
 
+def chr_ok(v):
+    """Code points that can be written as a character constant without touching the line structure."""
+    return 0x20 <= v <= 0x10ffff and not 0xd800 <= v <= 0xdfff and v not in (34, 39, 59, 92, 0x7f) and chr(v).isprintable()
+
+
 def source_of(c):
+    """The single-instruction program.  c['via'] writes the same operands another way: registers through .def aliases,
+    values through .equ symbols, as character constants, or as a computed expression."""
     lines = []
+    via = c.get("via", "")
     if c["device"]:
         lines.append(".device " + c["device"])
+    texts = []
+    for i, o in enumerate(c["ops"]):
+        t = op_text(o)
+        if via == "def" and o["k"] == "r":
+            lines.append(".def Reg%c = r%d" % ("AB"[i % 2], o["n"]))
+            t = "reg%c" % "ab"[i % 2]
+        elif via == "equ" and o["k"] == "e":
+            lines.append(".equ Val%d = %s" % (i, t))
+            t = "VAL%d" % i
+        elif via == "equlate" and o["k"] == "e":
+            t = "vAl%d" % i
+        elif via == "chr" and o["k"] == "e" and not o.get("lit") and chr_ok(o["v"]):
+            t = "'%s'" % chr(o["v"])
+        elif via == "expr" and o["k"] == "e" and not o.get("lit"):
+            t = "(%s + 3) - 3" % t if o["v"] % 2 else "(%s) * 2 / 2" % t
+        texts.append(t)
     if c["addr"]:
         lines.append(".org %d" % c["addr"])
-    lines.append((c["mn"] + " " + ", ".join(op_text(o) for o in c["ops"])).strip())
+    lines.append((c["mn"] + " " + ", ".join(texts)).strip())
+    if via == "equlate":
+        for i, o in enumerate(c["ops"]):
+            if o["k"] == "e":
+                lines.append(".equ val%d = %s" % (i, op_text(o)))
     return "\n".join(lines) + "\n"
+
+
+def spelling_variants(cases):
+    """The same (mnemonic, operands) written through aliases, symbols, character constants and expressions: the abstract
+    instruction -- and so the specification's verdict -- is the same."""
+    out = []
+    for i, c in enumerate(cases):
+        regs = [o for o in c["ops"] if o["k"] == "r"]
+        es = [o for o in c["ops"] if o["k"] == "e" and not o.get("lit")]
+        rel = c["addr"] != 0
+        if regs and (i % 3 == 0 or any(o["n"] < 16 for o in regs) and i % 2 == 0):
+            out.append(dict(c, via="def"))
+        if es and not rel and i % 5 == 1:
+            out.append(dict(c, via="equ"))
+        if es and not rel and i % 7 == 2:
+            out.append(dict(c, via="equlate"))
+        if es and any(chr_ok(o["v"]) for o in es) and (i % 4 == 3 or any(o["v"] > 0x7e for o in es)):
+            out.append(dict(c, via="chr"))
+        if es and not rel and i % 6 == 4 and all(abs(o["v"]) < (1 << 29) for o in es):
+            out.append(dict(c, via="expr"))
+    return out
 
 
 def to_event(c, res, devices):
@@ -385,6 +434,14 @@ def device_sequences(g, devices):
 GENS = {"C01": gen_c01, "C04": gen_c04, "C13": gen_c13}
 
 
+def _via_count(cases):
+    out = {}
+    for c in cases:
+        if c.get("via"):
+            out[c["via"]] = out.get(c["via"], 0) + 1
+    return out
+
+
 def canaries(events):
     """Binding self-test: copies of accepted-looking events with one recorded field
     corrupted; TLC must reject every one of them."""
@@ -416,6 +473,9 @@ def check(prop, tier, seed):
             if k not in seen:
                 seen.add(k)
                 cases.append(c)
+        nplain = len(cases)
+        if prop in ("C04", "C01"):
+            cases += spelling_variants(cases)
         jobs = [{"k": "str", "id": i, "src": source_of(c)} for i, c in enumerate(cases)]
         res = run_jobs(jobs)
         events = [to_event(c, res[i], devices) for i, c in enumerate(cases)]
@@ -449,7 +509,7 @@ def check(prop, tier, seed):
                 obs["text"] = r.get("text", "")[:200]
             exp = rejected[i]
             v.reject({"source": source_of(c), "mn": c["mn"], "ops": [strip(o) for o in c["ops"]],
-                      "device": c["device"], "flags": events[i]["flags"], "addr": c["addr"], "tag": c.get("tag", ""),
+                      "device": c["device"], "flags": events[i]["flags"], "addr": c["addr"], "tag": c.get("tag", ""), "via": c.get("via", ""),
                       "observed": obs,
                       "expected": {"ok": exp["ok"], "words": ["%04x" % w for w in exp["w"]]}}, matcher)
         v.summary(lambda x: (x["mn"], x["device"], x["observed"]["r"], "expected " + ("ok" if x["expected"]["ok"] else "err")))
@@ -479,7 +539,7 @@ def check(prop, tier, seed):
         if prop == "C01" and tier == "thorough":
             mc = model_check("MC_Isa", scratch, workers=8, xmx="8g", coverage=False)
             mc["theorems"] = "RoundTrip: Decode(Encode(i)) = Canon(i); WordRange; LenOK -- over every legal form (two-word address spaces: boundary set)"
-        nontrivial = len({(c["mn"], json.dumps(c["ops"], sort_keys=True), c["device"]) for c in cases})
+        nontrivial = len({(c["mn"], json.dumps(c["ops"], sort_keys=True), c["device"], c.get("via", "")) for c in cases})
         per_mn = {}
         for c in cases:
             per_mn[c["mn"]] = per_mn.get(c["mn"], 0) + 1
@@ -488,7 +548,9 @@ def check(prop, tier, seed):
             "traces_validated_against_impl": len(events),
             "evaluations": len(events), "distinct_nontrivial": nontrivial,
             "rule": "one build_str per (mnemonic, operand tuple, device, address) enumerated from the tables exported by "
-                    "AvrIsa.tla; distinct = distinct (mnemonic, operands, device); non-trivial = every case (each has at least a mnemonic)",
+                    "AvrIsa.tla; a rotating share of them once more with the operands written through .def aliases, .equ symbols (defined before / after), "
+                    "character constants and computed expressions; distinct = distinct (mnemonic, operands, device, spelling); non-trivial = every case (each has at least a mnemonic)",
+            "plain_cases": nplain, "spelling_variants": _via_count(cases),
             "mnemonics_covered": len(per_mn), "mnemonics_in_spec": len(table["mnemonics"]),
             "expected_ok": sum(1 for i, e in enumerate(events) if e["res"] == "ok" and i not in rejected),
             "expected_err": sum(1 for i, e in enumerate(events) if e["res"] == "err" and i not in rejected),
